@@ -617,7 +617,11 @@ func (p *pathCtx) assertVal(c value, label string) {
 			} else {
 				m = p.getModel()
 			}
-			p.violation("assert", label, "assertion is concretely false on this path", "", p.i.curStack(), m)
+			detail := "assertion is concretely false on this path"
+			if p.i.S != nil && p.i.S.live() > 1 {
+				detail += "; goroutines: " + strings.Join(p.i.S.describeAll(), " | ")
+			}
+			p.violation("assert", label, detail, "", p.i.curStack(), m)
 			p.kill(outStopped)
 		}
 	case *Term:
